@@ -58,13 +58,13 @@ def parseCalls (s : String) : List Call :=
   if s == "-" then [] else (s.splitOn "|").map parseCall
 
 /-- `Call::fmt` of common.rs -/
-def fmtCall : Call → String
+private def fmtCall : Call → String
   | .drawIter px => "di:" ++ fmtPix px
   | .fillContiguous a cs => s!"fc:{fmtRect a}:{fmtNats cs}"
   | .fillSolid a c => s!"fs:{fmtRect a}:{c}"
   | .clear c => s!"cl:{c}"
 
-def fmtLog (cs : List Call) : String := joinOr "|" (cs.map fmtCall)
+private def fmtLog (cs : List Call) : String := joinOr "|" (cs.map fmtCall)
 
 def handleAdapters (stream : String) (t : Toks) : Option String :=
   match stream with
